@@ -114,10 +114,13 @@ RandInstance(r) ==
 
 \* ------------------------------------------------------------- steps
 \* edits (change M); every other step is a public call that must leave M alone
-IsEdit(s) == s.op \in {"setbounds", "setobj", "setdir"}
+IsEdit(s) == s.op \in {"setbounds", "setobj", "setdir", "setobjdict"}
 ApplyStep(m, s) ==
   CASE s.op = "setbounds" -> [m EXCEPT !.lb[s.r] = s.lb, !.ub[s.r] = s.ub]
     [] s.op = "setobj" -> [m EXCEPT !.c[s.r] = s.k]
+    \* model.objective = {reaction: coefficient ...}: the whole objective is replaced -- by nothing when the
+    \* dictionary is empty (the direction stays)
+    [] s.op = "setobjdict" -> [m EXCEPT !.c = [k \in 1..Len(m.c) |-> IF k = s.r THEN s.k ELSE IF k = s.r2 THEN s.k2 ELSE 0]]
     [] s.op = "setdir" -> [m EXCEPT !.dir = s.dir]
     [] OTHER -> m
 
@@ -164,6 +167,10 @@ Script(m) ==
 DrawStep(r, m) ==
   LET d == Draws(r, 10) n == NR(m) rr == (d[2] % n) + 1 bp == Pick(BPairs, d[3])
       edit == CASE d[4] % 3 = 0 -> [op |-> "setbounds", r |-> rr, lb |-> bp[1], ub |-> bp[2]]
+                [] d[4] % 3 = 1 /\ d[9] % 3 = 0 ->
+                     \* (k = k2 = 0: the empty dictionary)
+                     [op |-> "setobjdict", r |-> rr, k |-> Pick(<<0, 1, 0, -1>>, d[5]), r2 |-> (d[6] % n) + 1,
+                      k2 |-> IF (d[6] % n) + 1 = rr THEN 0 ELSE Pick(<<0, 0, 2, 1>>, d[10])]
                 [] d[4] % 3 = 1 -> [op |-> "setobj", r |-> rr, k |-> Pick(<<1, 0, 2, -1>>, d[5])]
                 [] OTHER -> [op |-> "setdir", dir |-> IF m.dir = "max" THEN "min" ELSE "max"]
       sub == LET keep == {k \in 1..n : d[5 + (k % 5)] % 3 # 0} \cup {rr} IN
